@@ -350,7 +350,10 @@ class TreeHistory:
                 except ValueError:
                     pass
         elif op == "vps":
+            old = self.vps.get("org.polarsys.capella.core.viewpoint")
             self.vps = rand_vps(rng)
+            if old and rng.random() < 0.7:  # mostly keep the Capella version: the root's own namespace stays valid
+                self.vps["org.polarsys.capella.core.viewpoint"] = old
         elif op == "comment":
             c = etree.Comment(rng.choice(["c1", "Capella_Version_7.0.0", "x y"]))
             (root.addnext if rng.random() < 0.6 else root.addprevious)(c)
@@ -585,6 +588,44 @@ def gen_loader(ctx, out, cases: list) -> None:
                       ("ns.loader", {"case": i, "kinds": [f[0] for f in frags]}, iv)))
 
 
+def gen_witnesses(ctx, out, cases: list) -> None:
+    """the concrete witnesses of `Props/C02.lean` (boundary of the namespace theorems), replayed on the implementation on
+    every run: unknown undeclared prefix kept, text of a replaced root lost, trailing comments reversed, missing / empty
+    viewpoint version refused, and the non-vacuity example"""
+    etree, exs, core = c01.impl()
+    logging.getLogger("capellambse").setLevel(logging.CRITICAL)
+    NS = [["xmi", c01.XMI], ["xsi", c01.XSI]]
+    ZZ = NS + [["zz", "http://zz"]]
+    CV = "org.polarsys.capella.core.viewpoint"
+    W = [
+        ("undeclared-prefix-kept", {"pre": [], "root": ["a", ZZ, [], None, None, [["k", [], [[XSI_T, "yy:R"]], None, None, []]]], "post": []}, {}),
+        ("root-text-lost", {"pre": [], "root": ["a", ZZ, [], "hello", None, []], "post": []}, {}),
+        ("trailing-comments-reversed", {"pre": [["A", None], ["B", None]], "root": ["a", ZZ, [], None, None, []], "post": [["C", None], ["D", None]]}, {}),
+        ("viewpoint-missing", {"pre": [], "root": ["a", NS, [], None, None, [["k", [], [[XSI_T, "re:CatalogElement"]], None, None, []]]], "post": []}, {}),
+        ("viewpoint-empty", {"pre": [], "root": ["a", NS, [], None, None, [["k", [], [[XSI_T, "re:CatalogElement"]], None, None, []]]], "post": []}, {CV: ""}),
+        ("non-vacuity", {"pre": [["Capella_Version_6.0.0", None]],
+                         "root": ["Project", ZZ, [["{%s}version" % c01.XMI, "2.0"], ["id", "r"]], None, None,
+                                  [["ownedExtensions", [], [[XSI_T, "Requirements:Requirement"], ["id", "q"]], None, None, []],
+                                   ["ownedX", [], [[XSI_T, "re:CatalogElement"]], None, None, []]]], "post": []}, {CV: "6.1.2"}),
+    ]
+    expect = {"undeclared-prefix-kept": lambda iv: "doc" in iv and [p for p, _ in iv["doc"]["root"][1]] == ["xmi", "xsi"],
+              "root-text-lost": lambda iv: "doc" in iv and iv["doc"]["root"][3] is None,
+              "trailing-comments-reversed": lambda iv: "doc" in iv and [c[0] for c in iv["doc"]["post"]] == ["D", "C"],
+              "viewpoint-missing": lambda iv: iv == {"raises": "CorruptModelError"},
+              "viewpoint-empty": lambda iv: iv == {"raises": "CorruptModelError"},
+              "non-vacuity": lambda iv: "doc" in iv and [p for p, _ in iv["doc"]["root"][1]] == ["Requirements", "re", "xmi", "xsi"]}
+    for name, doc, vps in W:
+        mf = model_file(core, build_doc(etree, doc))
+        iv = impl_update(core, mf, vps)
+        out.case(("ns-witness", name), None, True)
+        out.traces_validated += 1
+        out.hit("witness:" + name + (":as-proved" if expect[name](iv) else ":implementation-differs"))
+        if not expect[name](iv):
+            out.disagree("ns.witness", {"witness": name}, json.dumps(iv)[:400], "the Lean witness theorem states otherwise")
+        cases.append(({"op": "xml.updateNs", "doc": doc, "vps": [[k, v] for k, v in vps.items()]},
+                      ("ns.witness", {"witness": name}, iv)))
+
+
 def compare_all(out, cases: list, answers: list) -> None:
     for (req, (stream, case, iv)), ans in zip(cases, answers):
         mv = ans.get("ok", {"err": ans.get("err")})
@@ -602,6 +643,7 @@ def compare_all(out, cases: list, answers: list) -> None:
 
 def tree_level_cases(ctx, out) -> list:
     cases: list = []
+    gen_witnesses(ctx, out, cases)
     gen_corpus(ctx, out, cases)
     gen_tree_histories(ctx, out, cases)
     gen_prefix(ctx, out, cases)
